@@ -990,7 +990,18 @@ func (nr *netRun) checkC08(x *xfer) {
 						// reached (the read and the validation are separate steps; a block report slipped in between)
 						for _, w := range b.Wire {
 							if (w.Dir == "send" || (w.Dir == "sent" && w.Carrier == "graphsync")) && !w.Sum.Req && w.Sum.Restart && w.Sum.Accepted && !w.Sum.Paused && w.Sum.TID == x.chid.ID && w.Life == life && w.Step > pausedLB && w.Step < e.Step {
-								cause = "|restart-validated-before-the-limit-was-reached-and-carried-out-after"
+								// ... and the state its validation was handed was indeed still below the limit (a response that says
+								// "not paused" for a state that was already at the limit is a different defect)
+								var last *ValCall
+								for i := range b.ValCalls {
+									vc := &b.ValCalls[i]
+									if vc.ChID == x.chid && vc.Kind == "restart" && vc.Life == life && vc.Step <= w.Step {
+										last = vc
+									}
+								}
+								if last != nil && last.PreOK && (last.Result.DataLimit == 0 || lim(last.Pre) < last.Result.DataLimit) {
+									cause = "|restart-validated-before-the-limit-was-reached-and-carried-out-after"
+								}
 							}
 						}
 					}
